@@ -26,6 +26,9 @@ pub const TMPLS: &[Tmpl] = &[
     // nested nodes of the same kind that start at the same position (a.b.c); queries that do not start with `(`
     Tmpl { query: "(attribute object: (attribute) @inner) @outer", caps: &[("inner", K::Syn, "attr"), ("outer", K::Syn, "attr")] },
     Tmpl { query: "(call function: (call) @icall) @ocall", caps: &[("icall", K::Syn, "call"), ("ocall", K::Syn, "call")] },
+    // a GROUP as pattern root: the stanza's full match has several nodes when the optional / sibling node is there
+    Tmpl { query: "((expression_statement)? @_lead . (function_definition name: (identifier) @gname))", caps: &[("gname", K::Syn, "identifier")] },
+    Tmpl { query: "((_) @g1 . (pass_statement) @g2)", caps: &[("g1", K::Syn, ""), ("g2", K::Syn, "")] },
     Tmpl { query: "\"pass\" @kw", caps: &[("kw", K::Syn, "")] },
     Tmpl { query: "_ @any", caps: &[("any", K::Syn, "")] },
 ];
@@ -318,6 +321,13 @@ pub fn gen_program(rng: &mut Rng, opts: &GenOpts) -> Program {
         for (sk, name, k) in new_scoped { if opts.inherit && rng.chance(15) { inherit_names.push(name.clone()); } scoped.entry(sk).or_default().push((name, k)); }
         stanzas.push(format!("{} {{\n{}}}\n", t.query, body));
     }
+    // a stanza with an EMPTY body (a placeholder: nothing to execute, but its pattern is part of the merged query and its
+    // matches are visited and polled like all others), before / between / after the others
+    if rng.chance(18) {
+        let st = *rng.pick(&["(identifier) {}\n", "(module) {\n}\n", "(pass_statement) @_p {\n  ; nothing yet\n}\n", "(function_definition name: (identifier) @_n) {}\n", "[(integer) (string)] { }\n"]);
+        let pos = rng.below(stanzas.len() + 1);
+        stanzas.insert(pos, st.to_string());
+    }
     if opts.allow_scan && rng.chance(25) { if let Some(st) = crate::c10::gen_scan_stanza(rng) { let pos = rng.below(stanzas.len() + 1); stanzas.insert(pos, st); } }
     for nme in inherit_names { preamble.push(format!("inherit .{}", nme)); }
     Program { preamble, stanzas, supplied }
@@ -406,7 +416,11 @@ pub const RUNTIME_FAULTS: &[(&str, u32)] = &[
 /// Insert one runtime fault at a random statement position (any depth) of a random stanza.
 pub fn inject_runtime_fault(rng: &mut Rng, p: &mut Program) -> (String, u32, usize) {
     let (text, code) = loop { let f = rng.pick(RUNTIME_FAULTS); if f.1 != 0 { break *f; } };
-    let si = rng.below(p.stanzas.len());
+    // a stanza that has a block to put the fault into (placeholder stanzas `(..) {}` have none)
+    let has_block = |st: &String| st.lines().enumerate().any(|(i, l)| l.trim_end().ends_with('{') && !l.trim_start().starts_with("scan ") && i + 1 < st.lines().count());
+    let with_block: Vec<usize> = (0..p.stanzas.len()).filter(|i| has_block(&p.stanzas[*i])).collect();
+    if with_block.is_empty() { return (String::new(), 0, 0); }
+    let si = *rng.pick(&with_block);
     let lines: Vec<String> = p.stanzas[si].lines().map(|l| l.to_string()).collect();
     // positions: after any line that ends with '{' (block start) — depth = indentation of that line
     let cands: Vec<usize> = lines.iter().enumerate().filter(|(i, l)| l.trim_end().ends_with('{') && !(l.trim_start().starts_with("scan ")) && *i + 1 < lines.len()).map(|(i, _)| i).collect();
